@@ -17,6 +17,16 @@ RULE = ("kinds: chunks (n, n_chunks) exhaustive over a grid; pipeline (n<=7, n_c
         "sigmoid on/off).  Non-trivial: n>=2; distinct by canonical case description.")
 THEOREMS = {
     "C07_model_is_source_enumeration": "lower_tri n (as integer pairs) is what the whole generator lower_triangular_indices, re-translated from /repo on this run, yields for n >= 0; for n <= 0 it yields nothing",
+    "C07_model_is_source_get_lower_triangular_indices_chunk": "get_lower_triangular_indices_chunk translated as ONE whole function (assert, checked // and %, the generator's list, consume / list(islice) as skipn / firstn refusing a negative count) = Chunks.chunk_checked for all integer arguments; for 0 <= chunk_index < n_chunks that is Chunks.chunk; a dimension <= 0 gives the empty chunk",
+    "C07_model_is_source_init": "ChunkedDistanceMatrix.__init__ translated: chunk_size argument unless None or 0, else the length of the (n_chunks, chunk_index) chunk; negative refused by np.zeros; the new object is well formed and represents the empty matrix",
+    "C07_model_is_source_add_value": "add_value + _expand_storage translated: on a well-formed stored object with room it is the model's add_value through the representation map (guards >= and <, entry appended, the already-calculated tests cannot fire); on an object built for an empty chunk (no room) a value passing the guards raises IndexError",
+    "C07_model_is_source_is_complete": "is_complete translated = model's count test",
+    "C07_model_is_source_combine": "combine translated (size test, prefix copy into a new object, duplicate suppression by (row, col) membership as written, add_value per new entry) = model's combine, for well-formed objects (a size<2 matrix is not combined with one holding a value)",
+    "C07_model_is_source_concat": "concat translated (single element returned as is, empty list refused, size test + combine per further matrix) = model's dm_concat",
+    "C07_model_is_source_to_dense": "to_dense translated (refusal of an incomplete matrix, zero matrix, both mirrored cells written per entry) = model's to_dense, for objects whose stored index pairs are inside the matrix",
+    "C07_model_is_source_calculate_pairwise": "calculate_pairwise_distance_matrix_on_predictions translated, for ANY get_theta / predict_viability / metric = model's compute_chunk with d i j = metric(pred i, pred j) for 0 <= chunk_index < n_chunks; outside it fails as the chunk function does",
+    "C07_model_is_source_pipeline": "the translated calculate_pairwise per listed chunk, concat, to_dense composed = the model's pipeline (the subject of C07_assemble / C07_incomplete_refused)",
+    "C07_model_is_source_mse_distance": "MSEDistance.distance translated (sigmoid branch, a - b, ** 2, mean) = Mse.mse_distance on two vectors of one length",
     "C07_chunks_partition": "concat of all chunks in index order = enumeration of pairs i>j (all n, all n_chunks>=1)",
     "C07_chunks_cover_once": "every pair j<i<n occurs exactly once over all chunks, nothing else occurs",
     "C07_chunks_disjoint": "two different chunk indices share no pair",
@@ -32,12 +42,27 @@ THEOREMS = {
 }
 ASSUMPTIONS = [
     "h5py dataset write/read is the identity on int64/float64 arrays (exercised by every pipeline case)",
-    "the zero-initialised backing arrays of ChunkedDistanceMatrix are abstracted away (slot at current_index is always 0 in pipeline-reachable states)",
+    "the entry-list model abstracts the zero-initialised backing arrays of ChunkedDistanceMatrix away; the C07_model_is_source_* links prove that abstraction sound for the translated methods (storage_ok: every slot from current_index on is zero, so the already-calculated tests cannot fire)",
     "metric values cross the wire as integers (the stub metric returns integer-valued floats); MSEDistance itself is compared over exact rationals with tolerance 1e-9",
     "expit is an oracle (libm on the nearest double) in the model",
 ]
-EXPLANATION = ("Model: Model/Chunks.v, Model/DistMat.v, Model/Mse.v. Modelled, not verified: numpy array storage, h5py, "
-               "tqdm; the CLI wrapper calculate_distance_matrix.main is exercised in-process on real Screen/ThetaHolder files by implementation-only predicate cases (kind cli).")
+EXPLANATION = ("Model: Model/Chunks.v, Model/DistMat.v, Model/Mse.v. Modelled, not verified: h5py (save / load are the identity in the model), "
+               "tqdm; the CLI wrapper calculate_distance_matrix.main is exercised in-process on real Screen/ThetaHolder files by implementation-only predicate cases (kind cli). "
+               "Source-translation links (C07_model_is_source_*): consume, get_number_of_lower_triangular_indices, lower_triangular_indices, "
+               "get_lower_triangular_indices_chunk, ChunkedDistanceMatrix.__init__ / _expand_storage / add_value / is_complete / to_dense / combine / concat, "
+               "calculate_pairwise_distance_matrix_on_predictions and MSEDistance.distance are re-translated WHOLE from the source on every run "
+               "(harness/py2gal.py, configurations C07_* in harness/src_functions.py, output Generated/SrcChunks.v, SrcDistMat.v, SrcMse.v) and proved equal to the model "
+               "(the matrix methods through the explicit representation map DistMat.dm_of_storage: entry k = (row_indices[k], col_indices[k], values[k]) for k < current_index, "
+               "under the storage invariant storage_ok that __init__ establishes and every method is proved to keep). "
+               "These links TRUST the translator (incl. its new constructs: assert, checked // and %, truthiness of an Optional[int], x.attr[i] = v, x.attr += e) and exactly these primitives: "
+               "an iterator over a generator = the list of its remaining items; collections.deque(islice(it, n), maxlen=0) = drop n items, list(islice(it, k)) = take k items, both ValueError for a negative count; "
+               "len; np.zeros(n, dtype=int|float) = n zeros (ValueError for n < 0); np.zeros((n, m)); np.concatenate((a, b)) = a ++ b; a[:k] (numpy prefix slice); a[i] read / a[i] = v / a[i, j] = v with one wrap of a negative index and IndexError outside; "
+               "a[:k] = v (lengths equal, or one item broadcast, else ValueError); x != 0 on an int / on a stored value; (r, c) not in zip(a, b) = no position holds the pair; ChunkedDistanceMatrix(s, chunk_size=c) / ChunkedDistanceMatrix(size=, chunk_index=, n_chunks=) = the translated __init__ on a blank object with the signature's defaults (checked); "
+               "a.combine(b), self.is_complete(), self._expand_storage(), x.add_value(...) = the translated methods; tqdm.tqdm(l) iterates l; logger.info ignored; thetas.n_thetas, thetas.get_theta(i), sample.predict_viability(data), distance_metric.distance(a, b) = arbitrary values / functions; "
+               "self.sigmoid; expit(x) = the oracle elementwise; x - y (elementwise, one item broadcast, else ValueError), x ** 2, np.mean(x) (NaN of an empty array = the model's error 6). "
+               "Hypotheses of the links, all facts about every object the pipeline builds: storage_ok (constructed objects), has_room / the size >= 2 side conditions (an object built for an EMPTY chunk has no slot and chunk_size 0: add_value on it would raise IndexError - "
+               "the pipeline never adds to it), entries_in_range (stored indices come from the enumeration, so they are not negative), equal prediction lengths for the metric. "
+               "Not linked: save / load (h5py; the model's identity; exercised by every pipeline case).")
 
 
 def _tmpdir():
